@@ -183,6 +183,45 @@ func (c *Ctx) c19Server(rel, name string) {
 		}
 	})
 	r.Check(waits == 1, "C19/DRAIN", name+":Drain", p.Pos(drain.Pos()), "Drain waits on the session WaitGroup", "Drain does not wait on the session WaitGroup: it returns while sessions are open")
+	// whatever else Drain waits for must be signalled on every way out of Start: a channel that
+	// Start closes only at the end of a clean run leaves Drain — and with it main's shutdown
+	// sequence — blocked for ever after a start that failed (the address could not be bound)
+	{
+		nRecv := 0
+		eng.EachInstr(drain, func(in ssa.Instruction) {
+			u, ok := in.(*ssa.UnOp)
+			if !ok || u.Op != token.ARROW {
+				return
+			}
+			f := eng.LoadedField(u.X)
+			if f == nil {
+				return
+			}
+			nRecv++
+			cons := name + ":Drain-waits:" + f.Name()
+			isClose := func(x ssa.Instruction) bool {
+				cc := eng.CallOf(x)
+				return cc != nil && eng.CalleeName(cc) == "builtin.close" && len(cc.Args) == 1 && eng.SameField(eng.LoadedField(cc.Args[0]), f)
+			}
+			// a channel made closed, or never closed at all, is a different matter; here: closed in Start
+			closes := false
+			eng.EachInstr(start, func(x ssa.Instruction) {
+				if isClose(x) {
+					closes = true
+				}
+			})
+			if !closes {
+				r.Undecided("C19/DRAIN", cons, p.InstrPos(in), "Drain receives from Server.%s, which Start does not close: what ends that wait was not found", f.Name())
+				return
+			}
+			if ret := (&eng.Search{Target: eng.IsReturnOf(start), Avoid: isClose, Deep: true}).FromEntry(start); ret != nil && !eng.IsRecoverBlock(ret.Block()) {
+				r.Bad("C19/DRAIN", cons, p.InstrPos(in), "Drain waits for Server.%s, but Start can return at %s without closing it (a start that failed, e.g. the address could not be bound): the shutdown sequence then blocks in Drain for ever — the later waits and the cleanup are never reached", f.Name(), p.InstrPos(ret))
+			} else {
+				r.Ok("C19/DRAIN", cons, p.InstrPos(in), "Server.%s is closed on every exit of Start", f.Name())
+			}
+		})
+		_ = nRecv
+	}
 	// D3 listener close after ctx.Done
 	// the wait may live in a helper Start calls synchronously (closeOnShutdown(ctx))
 	var doneRecv ssa.Instruction
